@@ -43,7 +43,7 @@ def run(ctx):
     ctx.floor("R-C11-F", 7 * 35 * 2)
     ctx.floor("R-C11-H", 5)
     ctx.floor("R-C11-1", 9)
-    ctx.floor("R-C11-2", 6)
+    ctx.floor("R-C11-2", 10)
     ctx.floor("R-C11-3", 5)
 
 
@@ -121,11 +121,13 @@ def rule_note_transpose(ctx):
     ctx.touch(fi)
     # Pitch arithmetic.  P(name) = natural + sharps - flats of a name (not reduced mod 12: B# is 12, Cb is -1), the
     # pitch number of a note is 12*octave + P(name) (C10).  The rename (intervals.from_shorthand, C03) gives a name
-    # with P(new) = P(old) +- s - 12*w for the interval size s in 0..11 and a wrap w in {0, 1}; the octave must move
-    # by exactly w so that the pitch number moves by exactly s.  Both wraps are evaluated with s, P(old), octave symbolic.
+    # with P(new) = P(old) +- s - 12*w for the interval size s in 0..11 and a wrap w; the octave must move by exactly w
+    # so that the pitch number moves by exactly s.  w is 0 or 1 for ordinary spellings; the respelling helper keeps at
+    # most six accidentals and may answer six sharps for six flats, which makes w = 2 or -1 possible (B###### for
+    # Bbbbbbb).  All four wraps are evaluated with s, P(old) and the octave symbolic.
     from ..engine.absval import Token
     for up in (True, False):
-        for wrap in (0, 1):
+        for wrap in (-1, 0, 1, 2):
             old_name, new_name, interval = Token("old_name"), Token("new_name"), Token("interval")
             o = Sym("octave", 0, INF)
             size = Sym("semitones", 0, 11)
